@@ -27,3 +27,5 @@ func TypeName(v any) string                        { return "" }
 func Opaque(v any) string                          { return "" }
 func AssignIfType(err error, target any) bool      { return false }
 func MutexLocked(m *sync.Mutex) bool               { return false }
+func FreshF64(lo, hi float64) float64              { return lo }
+func Advance()                                     {}
